@@ -177,6 +177,15 @@ def _eval_listed(keys):
     return out
 
 
+def _eval_payloads(payloads):
+    ev = _G["evaluate"]
+    out = []
+    for p in payloads:
+        f = ev(p).get("fail")
+        out.append(f[0] if f is not None else None)
+    return out
+
+
 def minimal_cores(space, fails, evaluate=None, closed=True):
     """fails: list of (index, sig, detail).  Returns list of (text, sig, detail, case) that are
     minimal under symbol deletion among failing cases with the same signature.
@@ -192,10 +201,30 @@ def minimal_cores(space, fails, evaluate=None, closed=True):
     cache = {}
     mins = []
     attributed = 0
+    use_single = getattr(space, "SINGLE_DELETION", True)
+    if not closed:
+        # frontier documents: their sub-cases were not enumerated; evaluate the needed ones in parallel
+        need = {}
+        for text in order:
+            case = by_text[text][2]
+            for sub in (space.subcases1(case) if use_single else space.subcases(case)):
+                st = space.key(sub)
+                if st != text and st not in by_text and st not in need:
+                    need[st] = space.payload(sub)
+        keys = list(need)
+        _G["evaluate"] = evaluate
+        chunks = [[need[k] for k in keys[i : i + 200]] for i in range(0, len(keys), 200)]
+        sigs = sum(pool.pmap(_eval_payloads, chunks), []) if chunks else []
+        cache = dict(zip(keys, sigs))
     for text in order:
         sig, detail, case = by_text[text]
         is_min = True
-        for sub in space.subcases(case):
+        # 1-minimality: a failing case is reported unless deleting ONE symbol still fails with the
+        # same signature (a counterexample is "explained" by a smaller one only along a chain of
+        # single deletions that all fail alike; a known core somewhere inside a document does not
+        # explain a failure that disappears as soon as any one line is removed)
+        subs = space.subcases1(case) if use_single else space.subcases(case)
+        for sub in subs:
             st = space.key(sub)
             if st == text:
                 continue
